@@ -15,7 +15,9 @@ import (
 	"sort"
 	"strconv"
 	"strings"
+	"sync"
 	"testing"
+	"time"
 
 	"pgregory.net/rapid"
 )
@@ -27,7 +29,12 @@ type vfC10Case struct {
 	// combinations of cuts across the four files of the in-flight segment: fraction of the final
 	// length (0..1), -1 = file missing, 2 = file complete
 	Combos [][4]float64 `json:"combos"`
+	// variant: the last flush runs on the BACKGROUND worker and is parked at this hook point while an
+	// explicit Flush is issued; if that Flush returns nil the process "dies" at once ("" = variant off)
+	BgParkAt string `json:"bg_park_at,omitempty"`
 }
+
+var vfC10ParkPoints = []string{"flush:created:hybrid", "flush:created:vector", "flush:created:metadata", "flush:written", "flush:closed:vector", "flush:closed:hybrid", "flush:registered", "flush:before_drop"}
 
 func vfC10Gen(rt *rapid.T) vfC10Case {
 	c := vfC10Case{}
@@ -48,6 +55,9 @@ func vfC10Gen(rt *rapid.T) vfC10Case {
 	for j := 0; j < rapid.IntRange(1, 5).Draw(rt, "in_flight_docs"); j++ {
 		n++
 		c.InFlight = append(c.InFlight, *vfGenStoreDoc(rt, g, n, explicit))
+	}
+	if rapid.IntRange(0, 3).Draw(rt, "background_flush_variant") == 0 {
+		c.BgParkAt = rapid.SampledFrom(vfC10ParkPoints).Draw(rt, "bg_park_at")
 	}
 	for k := 0; k < rapid.IntRange(4, 12).Draw(rt, "n_combos"); k++ {
 		var cb [4]float64
@@ -277,6 +287,11 @@ func vfC10Run(c vfC10Case, ctx *vfCtx) *vfViolation {
 	everAdded[1<<30+900000] = true // the probe document of the per-image oracle
 	vfInflightSpansSegments = vfStoreMemtableCount(st) > 1
 
+	if c.BgParkAt != "" {
+		stClosed = true
+		return vfC10BackgroundVariant(&c, ctx, st, root, dir, &conf, durable, inflight, everAdded)
+	}
+
 	// the interrupted flush: snapshot at every hook point
 	type snap struct {
 		point string
@@ -409,6 +424,88 @@ func vfC10Run(c vfC10Case, ctx *vfCtx) *vfViolation {
 	if partialSeen && len(c.Completed) >= 1 {
 		ctx.NonTrivial()
 	}
+	return nil
+}
+
+// vfC10BackgroundVariant: the flush of the last documents runs on the background worker and is parked
+// half-way; meanwhile the application calls Flush. Whenever that call returns nil, everything added
+// before it is durable - so the directory as it is at that instant must reopen with all of it.
+func vfC10BackgroundVariant(c *vfC10Case, ctx *vfCtx, st *PersistentHybridIndex, root, dir string, conf *vfStoreConf, durable, inflight map[uint32]*vfStoreDoc, everAdded map[uint32]bool) *vfViolation {
+	defer vfInstallHook(nil)
+	valid := false
+	for _, p := range vfC10ParkPoints {
+		valid = valid || p == c.BgParkAt
+	}
+	if !valid || len(inflight) == 0 {
+		st.Close()
+		return nil
+	}
+	parked, release := make(chan struct{}), make(chan struct{})
+	var once sync.Once
+	vfInstallHook(func(name string, args ...any) {
+		if name == c.BgParkAt {
+			once.Do(func() {
+				close(parked)
+				<-release
+			})
+		}
+	})
+	vfStoreRotate(st)
+	vfStoreKickFlushWorker(st)
+	select {
+	case <-parked:
+	case <-time.After(5 * time.Second):
+		close(release)
+		st.Close()
+		return vfFail("the background flush worker did not reach %s within 5 s of being woken with a frozen memtable pending", c.BgParkAt)
+	}
+	all := map[uint32]*vfStoreDoc{}
+	for id, d := range durable {
+		all[id] = d
+	}
+	for id, d := range inflight {
+		all[id] = d
+	}
+	flushDone := make(chan error, 1)
+	go func() { flushDone <- st.Flush() }()
+	var v *vfViolation
+	returnedEarly := false
+	select {
+	case err := <-flushDone:
+		returnedEarly = true
+		flushDone <- err
+		if err == nil {
+			img := vfReadDirImage(dir)
+			v = vfCheckCrashImage(root, 1, img, conf, all, map[uint32]*vfStoreDoc{}, everAdded, "crash right after an explicit Flush returned nil while the background flush of the same memtable was parked at "+c.BgParkAt)
+			ctx.Class("explicit_flush_returned_while_background_flush_was_parked")
+		}
+	case <-time.After(250 * time.Millisecond):
+		ctx.Class("explicit_flush_waited_for_the_parked_background_flush")
+	}
+	close(release)
+	ferr := <-flushDone
+	_ = returnedEarly
+	if v != nil {
+		st.Close()
+		return v
+	}
+	if ferr != nil {
+		st.Close()
+		return vfFail("an explicit Flush overlapping a background flush failed: %v", ferr)
+	}
+	// the explicit Flush has returned nil: crash now
+	img := vfReadDirImage(dir)
+	if v := vfCheckCrashImage(root, 2, img, conf, all, map[uint32]*vfStoreDoc{}, everAdded, "crash right after an explicit Flush that overlapped a background flush (parked at "+c.BgParkAt+") returned nil"); v != nil {
+		st.Close()
+		return v
+	}
+	if err := st.Close(); err != nil {
+		return vfFail("Close: %v", err)
+	}
+	ctx.Count("images_checked", 2)
+	ctx.Count("points_enumerated", 1)
+	ctx.Class("background_flush_variant")
+	ctx.NonTrivial()
 	return nil
 }
 
